@@ -79,6 +79,9 @@ for _ka in _K2:
     for _kb in _K2:
         if _ka != _kb:
             make_pair((_ka, _kb), 120 if (_ka, _kb) in _QUICK2 else None, 480)
+# the same key listed twice (same or another spelling) with independent directions: the first occurrence decides
+for _ks in [('name_b', 'hidden_c', 'name_b'), ('pos2', 'pos1', 'name_b'), ('hidden_c', 'hidden_c'), ('expr', 'pos1', 'expr')]:
+    make_pair(_ks, 240, 600)
 _QUICK3 = [('pos1', 'name_b', 'hidden_c'), ('hidden_c', 'name_b', 'pos1'), ('name_b', 'hidden_c', 'pos1')]
 for _ks in itertools.permutations(['pos1', 'name_b', 'hidden_c'], 3):
     make_pair(_ks, 240 if _ks in _QUICK3 else None, 900)
